@@ -310,12 +310,25 @@ def generate(rng, tier):
             # either way Q = wvl z / (m dx odx)
             dx = arrays[name]["dxp"] if kind == "ffs" else arrays[name]["dxf"]
             odx = wvl * z / (m * dx) / q
+            rep = rng.random() < 0.25
+            if rep:
+                # round numbers (exact in single precision too): the same call may have been made earlier with
+                # numpy float32 scalars
+                wvl, z = rng.choice([0.5, 0.75, 1.0, 1.5]), rng.choice([64.0, 100.0, 250.0])
+                dx = rng.choice([0.125, 0.25, 0.5, 1.0, 2.0])
+                odx = rng.choice([0.5, 1.0, 2.0, 3.0, 4.0, 6.0]) * (1.0 if kind == "ffs" else 0.125)
+                arrays[name]["wvl"] = wvl
+                arrays[name]["dxp" if kind == "ffs" else "dxf"] = dx
             sh = g["shift"]
             op = {"op": kind, "arr": name, "dx": dx, "z": z, "wvl": wvl, "odx": odx,
                   "out": M if rng.random() < 0.5 else [M, M],
                   "shift": [sh[0] * odx, sh[1] * odx],
                   "method": rng.choice(["mdft", "czt"]), "wf": rng.random() < 0.5,
                   "shift_arr": rng.random() < 0.3}
+            if rep:
+                op["shift"] = [0.0, 0.0] if rng.random() < 0.5 else [odx * rng.randint(-3, 3), odx * rng.randint(-3, 3)]
+                if rng.random() < 0.6:
+                    ops.append({"op": "poison", "kind": "f32_scalars", "call": dict(op), "g": g, "seed": 0})
         elif kind in ("focus", "unfocus"):
             if fft_family and rng.random() < 0.8:
                 m, n, fq = rng.choice(fft_family)
@@ -346,7 +359,7 @@ def generate(rng, tier):
         else:
             g = rng.choice(pool)
             op = {"op": "poison", "kind": rng.choice(["list_samples", "int_fracshift", "bad_Q", "uint8_samples", "uint8_samples",
-                                                     "f32_Q"]),
+                                                     "f32_Q", "cube_everywhere", "cube_everywhere"]),
                   "g": g, "seed": rng.getrandbits(32)}
         ops.append(op)
         if kind in JUDGED:
@@ -623,6 +636,41 @@ def _poison(np, ft, op):
             for fn in (ft.czt.czt2, ft.czt.iczt2, ft.mdft.dft2, ft.mdft.idft2):
                 try:
                     fn(rs.standard_normal((m, n)), Q, (np.uint8(out[0]), np.uint8(out[1])), shift=shift)
+                except Exception:
+                    pass
+        elif k == "cube_everywhere":
+            # a 3-D array handed to every 2-D entry point, forward and inverse: each call may fail however it
+            # likes, none may leave the shared executors in a state that later valid calls can see
+            cube = rs.standard_normal((2, m, n)) + 1j * rs.standard_normal((2, m, n))
+            shift = tuple(g["shift"])
+            for fn in (ft.czt.iczt2, ft.czt.czt2, ft.mdft.idft2, ft.mdft.dft2):
+                try:
+                    fn(cube, Q, out, shift=shift)
+                except Exception:
+                    pass
+            from prysm import propagation as _pr
+            for fn in (_pr.unfocus_fixed_sampling, _pr.focus_fixed_sampling):
+                for meth in ("czt", "mdft"):
+                    try:
+                        fn(cube, 1.0, 100.0, 0.5, 2.0, out, shift=(0, 0), method=meth)
+                    except Exception:
+                        pass
+            for fn in (_pr.focus, _pr.unfocus):
+                try:
+                    fn(cube, 2)
+                except Exception:
+                    pass
+        elif k == "f32_scalars":
+            # the same physical-unit call made with numpy float32 scalars (by someone else, earlier)
+            c = op["call"]
+            from prysm import propagation as _pr
+            mm = spec_m = None
+            f32 = np.float32
+            for meth in ("czt", "mdft"):
+                try:
+                    fn = _pr.focus_fixed_sampling if c["op"] == "ffs" else _pr.unfocus_fixed_sampling
+                    side = rs.standard_normal((g["in"][0], g["in"][0]))
+                    fn(side, f32(c["dx"]), f32(c["z"]), f32(c["wvl"]), f32(c["odx"]), c["out"], method=meth)
                 except Exception:
                     pass
         elif k == "f32_Q":
@@ -933,7 +981,7 @@ def _wavefront(pr, user, alias, op, a, space):
     reused for every call on that array in that plane."""
     if not alias:
         return pr.Wavefront(a, op["wvl"], op["dx"], space=space)
-    key = (op["arr"], space)
+    key = (op["arr"], space, op["wvl"], op["dx"])
     w = user["wf"].get(key)
     if w is None or w.data is not a:
         w = pr.Wavefront(a, op["wvl"], op["dx"], space=space)
